@@ -10,12 +10,15 @@
 package c08
 
 import (
+	"encoding/base64"
 	"fmt"
 	"math/big"
 	"strings"
 	"time"
 
 	sdkmath "cosmossdk.io/math"
+	codectypes "github.com/cosmos/cosmos-sdk/codec/types"
+	"github.com/cosmos/cosmos-sdk/crypto/keys/ed25519"
 	sdk "github.com/cosmos/cosmos-sdk/types"
 	sdkvesting "github.com/cosmos/cosmos-sdk/x/auth/vesting/types"
 	"github.com/cosmos/cosmos-sdk/x/authz"
@@ -42,21 +45,25 @@ const Prop = "C08"
 type schedule struct {
 	name       string
 	lock, vest []rm.Period
+	startOff   int64 // start of the grant relative to the beginning of the exploration (negative: backdated)
 }
 
 func P(l, a int64) rm.Period { return rm.Period{Len: l, A: rm.One(world.Denom, a)} }
 
 func schedules(tier string) []schedule {
 	out := []schedule{
-		{"lock[10:2000,10:2000]-vest[10:2000,10:2000]", []rm.Period{P(10, 2000), P(10, 2000)}, []rm.Period{P(10, 2000), P(10, 2000)}},
-		{"lock[20:4000]-vest[10:4000]", []rm.Period{P(20, 4000)}, []rm.Period{P(10, 4000)}},
-		{"lock[10:4000]-vest[20:1000,10:3000]", []rm.Period{P(10, 4000)}, []rm.Period{P(20, 1000), P(10, 3000)}},
+		{"lock[10:2000,10:2000]-vest[10:2000,10:2000]", []rm.Period{P(10, 2000), P(10, 2000)}, []rm.Period{P(10, 2000), P(10, 2000)}, 0},
+		{"lock[20:4000]-vest[10:4000]", []rm.Period{P(20, 4000)}, []rm.Period{P(10, 4000)}, 0},
+		{"lock[10:4000]-vest[20:1000,10:3000]", []rm.Period{P(10, 4000)}, []rm.Period{P(20, 1000), P(10, 3000)}, 0},
 		// a window (t in (10,20)) in which some coins are vested but still locked while others are unvested
-		{"lock[20:4000]-vest[10:2000,20:2000]", []rm.Period{P(20, 4000)}, []rm.Period{P(10, 2000), P(20, 2000)}},
+		{"lock[20:4000]-vest[10:2000,20:2000]", []rm.Period{P(20, 4000)}, []rm.Period{P(10, 2000), P(20, 2000)}, 0},
+		// vesting runs ahead of a two-step lockup (grant backdated by 5 s: 3000 are vested from the start):
+		// coins can be delegated before the first unlock, and after it 0 < unlocked < vested < original
+		{"backdated5-lock[15:2000,20:2000]-vest[1:3000,40:1000]", []rm.Period{P(15, 2000), P(20, 2000)}, []rm.Period{P(1, 3000), P(40, 1000)}, -5},
 	}
 	if tier == "thorough" {
-		out = append(out, schedule{"lock[10:1000,20:3000]-vest[10:4000]", []rm.Period{P(10, 1000), P(20, 3000)}, []rm.Period{P(10, 4000)}},
-			schedule{"nolock-vest[10:2000,10:2000]", nil, []rm.Period{P(10, 2000), P(10, 2000)}})
+		out = append(out, schedule{"lock[10:1000,20:3000]-vest[10:4000]", []rm.Period{P(10, 1000), P(20, 3000)}, []rm.Period{P(10, 4000)}, 0},
+			schedule{"nolock-vest[10:2000,10:2000]", nil, []rm.Period{P(10, 2000), P(10, 2000)}, 0})
 	}
 	return out
 }
@@ -102,7 +109,7 @@ func newDriver(tier string, sc schedule) *driver {
 	d.F, d.R, d.G = w.Addrs[1], w.Addrs[2], w.Addrs[3]
 	d.V = sdk.AccAddress(world.Key(vKeyIdx).PubKey().Address().Bytes())
 	ctx := w.Ctx()
-	start := d.t0
+	start := d.t0 + sc.startOff
 	total := rm.FromPeriods(start, sc.vest).Total()
 	msg := vtypes.NewMsgCreateClawbackVestingAccount(d.F, d.V, time.Unix(start, 0).UTC(), toSDK(sc.lock), toSDK(sc.vest), false)
 	if _, err := w.RunMsg(ctx, msg); err != nil {
@@ -411,6 +418,65 @@ func (d *driver) ops(w *world.World, depth int, path []string) []engine.Op {
 				res.Nontrivial[fmt.Sprintf("%s|%s|%s|%d", d.sc.name, dl.name, cls, d.now()-d.t0)] = true
 				return "ok", nm
 			})
+		}
+	}
+	// the vesting account creates a validator with a self-delegation: a delegation like any other
+	{
+		type descT struct{ Moniker, Identity, Website, SecurityContact, Details string }
+		type commT struct{ Rate, MaxRate, MaxChangeRate *big.Int }
+		dec := func(x string) *big.Int { return sdk.MustNewDecFromStr(x).BigInt() }
+		pk := ed25519.GenPrivKeyFromSecret([]byte("verif-c08-validator")).PubKey()
+		own := sdk.ValAddress(d.V)
+		cvs := []dele{
+			{"create-validator-msg", func(a sdkmath.Int) []byte {
+				pkAny, err := codectypes.NewAnyWithValue(pk)
+				if err != nil {
+					panic(err)
+				}
+				return d.cosmos([]sdk.Msg{&stakingtypes.MsgCreateValidator{Description: stakingtypes.Description{Moniker: "verif"},
+					Commission:        stakingtypes.CommissionRates{Rate: sdk.MustNewDecFromStr("0.10"), MaxRate: sdk.MustNewDecFromStr("0.20"), MaxChangeRate: sdk.MustNewDecFromStr("0.01")},
+					MinSelfDelegation: sdkmath.NewInt(1), DelegatorAddress: d.V.String(), ValidatorAddress: own.String(), Pubkey: pkAny, Value: dcoin(a)}}, nil, vKeyIdx)
+			}},
+			{"create-validator-precompile", func(a sdkmath.Int) []byte {
+				return d.eth(precomp.StakingAddr, nil, precomp.MustPack(d.abis.Staking, "createValidator", descT{Moniker: "verif"},
+					commT{dec("0.10"), dec("0.20"), dec("0.01")}, big.NewInt(1), common.BytesToAddress(d.V), own.String(), base64.StdEncoding.EncodeToString(pk.Bytes()), a.BigInt()))
+			}},
+		}
+		for _, dl := range cvs {
+			for _, cls := range []string{"max", "max+1"} {
+				dl, cls := dl, cls
+				add(fmt.Sprintf("%s(%s)", dl.name, cls), func(p []string, res *engine.Result, m model) (string, model) {
+					if _, found := w.App.StakingKeeper.GetValidator(w.Ctx(), own); found {
+						return "skip", m
+					}
+					t := d.now()
+					orig := sdkmath.NewIntFromBigInt(m.vest.Total().Get(world.Denom))
+					unv := orig.Sub(sdkmath.NewIntFromBigInt(m.vest.Read(t).Get(world.Denom)))
+					maxD := d.bal().Sub(unv)
+					if maxD.IsNegative() {
+						maxD = sdkmath.ZeroInt()
+					}
+					a := maxD
+					if cls == "max+1" {
+						a = maxD.AddRaw(1)
+					}
+					if !a.IsPositive() {
+						return "skip", m
+					}
+					w.Deliver(dl.tx(a))
+					res.Evaluations++
+					if _, found := w.App.StakingKeeper.GetDelegation(w.Ctx(), d.V, own); !found {
+						return "rejected", m
+					}
+					if a.GT(maxD) {
+						d.viol(res, dl.name, "unvested-delegated", "a validator was created with a self-delegation larger than balance minus unvested", p, map[string]any{"delegated": a.String(), "max_ref": maxD.String(), "unvested_ref": unv.String()})
+					}
+					nm := m
+					nm.delegated = m.delegated.Add(a)
+					res.Nontrivial[fmt.Sprintf("%s|%s|%s|%d", d.sc.name, dl.name, cls, d.now()-d.t0)] = true
+					return "ok", nm
+				})
+			}
 		}
 	}
 	add("undelegate(all)", func(p []string, res *engine.Result, m model) (string, model) {
@@ -775,7 +841,7 @@ func Run(tier string) int {
 	res.Sample(map[string]any{"path": []string{"schedule=lock[20:4000]-vest[10:4000]", "time(+11)", "delegate-precompile(max)", "eth-contract-forward(sp+1)"}})
 	return engine.Finish(res, engine.Meta{
 		Property: Prop, Tier: tier, Level: "model_checking", Start: start,
-		Rule:   "per schedule fixture: all sequences <= depth over 36 spend operations (9 paths x {1, spendable, spendable+1, balance}), 9 delegations (message / authz exec / staking precompile x {1, max, max+1}), undelegate, a partly vested second grant with automatic staking, a merged second grant without lockup that vests later, conversion back to a plain account, liquidation of half of the locked coins (the model keeps the original unlock times), block boundary (unbonding completion), slash, clawback, 7 time jumps; every transaction through the real DeliverTx; plus a two-denomination fixture (lockup and vesting in opposite order per denomination) with a per-denomination locked reference; non-trivial = operation that moved coins, distinct by (schedule, path, amount class, time)",
+		Rule:   "per schedule fixture: all sequences <= depth over 36 spend operations (9 paths x {1, spendable, spendable+1, balance}), 9 delegations (message / authz exec / staking precompile x {1, max, max+1}), validator creation with a self-delegation (message / precompile x {max, max+1}), undelegate, a partly vested second grant with automatic staking, a merged second grant without lockup that vests later, conversion back to a plain account, liquidation of half of the locked coins (the model keeps the original unlock times), block boundary (unbonding completion), slash, clawback, 7 time jumps; every transaction through the real DeliverTx; plus a two-denomination fixture (lockup and vesting in opposite order per denomination) with a per-denomination locked reference; non-trivial = operation that moved coins, distinct by (schedule, path, amount class, time)",
 		Bounds: map[string]any{"depth": depth, "schedules": len(schedules(tier))},
 		Assumptions: []string{
 			"reference = step functions from the grant parameters; tracked delegation read from the account but bounded by the reference's own delegation counter",
